@@ -32,7 +32,10 @@ type entry struct {
 
 func NewStorage() *Storage { return &Storage{m: map[string]entry{}} }
 
-type InjectedFault struct{ Op string; N int }
+type InjectedFault struct {
+	Op string
+	N  int
+}
 
 func (f InjectedFault) Error() string { return fmt.Sprintf("injected %s fault #%d", f.Op, f.N) }
 
